@@ -40,6 +40,11 @@ pub fn check(bc: &BuildCase, with_callback: bool, obs: &mut Obs) -> Result<(), F
     };
     let n = built.size();
     let v = version_from_size(n).ok_or_else(|| Fail { sig: "size".into(), msg: format!("bad size {}", n) })?;
+    // "for that version": the version the symbol reports (what a callback or styling code reads) is the version whose
+    // region map the labels follow
+    if let Some(rv) = built.qr.version.map(crate::fq::version_no) {
+        ensure!(rv == v, "version_of_the_map", "the symbol reports version {} but its matrix ({} x {}) and label map are those of version {} ({:?})", rv, n, n, v, bc);
+    }
     let g = geometry(v);
     let mut data_labels = 0usize;
     for r in 0..n {
